@@ -49,7 +49,7 @@ void one_case(Ctx &c) {
     if (op == 0) { VLOG(c, "tick -> %ld", s.tick + 1); tick(); }
     else if (op == 1) { uint32_t n = 1 + c.t.below(30); VLOG(c, "%u ticks from %ld", n, s.tick); for (uint32_t i = 0; i < n; i++) tick(); }
     else if (op == 2) {   // heartbeat frame from a monitored or unmonitored node, arbitrary state byte
-      int n = 10 + (int)c.t.below(6); static const uint8_t SB[6] = {0, 127, 5, 4, 0x33, 127}; uint8_t sb = SB[c.t.below(6)];
+      int n = 10 + (int)c.t.below(6); static const uint8_t SB[12] = {0, 127, 5, 4, 0x33, 127, 5, 0x85, 0xFF, 0x80, 0x84, 0x7E}; uint8_t sb = SB[c.t.below(12)];   // incl. defined codes with the reserved bit 7 set: no valid state
       if (mode == 0) continue;
       s.rx(Frame::mk(0x700u + n, 1, {sb}));
       std::vector<std::pair<int, int>> exp;
@@ -125,6 +125,6 @@ Registrar reg(Prop{
     "Oracle: reference monitor per entry: armed by the first heartbeat, event callback + counter exactly at last_hb + T and every further T, counter saturating at 255 and cleared by reading, change callback iff the decoded state differs, write rules (0604 0043h and nothing changes / time 0 deactivates exactly that entry), other entries' schedules undisturbed. "
     "Non-trivial: >= 2 entries active at some point and >= 1 write after monitoring had started. Distinct = distinct decoded choice sequence.",
     {Mode{"random", one_case, false, 1500000, 20000000, 0, 0, 300, 500}},
-    {"timer frequency 1000 Hz (1 ms = 1 tick)", "a write that re-targets the entry's own node with a non-zero time counts as 'node already monitored' (as in the implementation and the statement's wording)"}});
+    {"timer frequency 1000 Hz (1 ms = 1 tick)", "a state byte other than 00h, 04h, 05h, 7Fh - including these codes with the reserved bit 7 set - is no valid state (reported as CO_INVALID), as CONmtModeDecode documents", "a write that re-targets the entry's own node with a non-zero time counts as 'node already monitored' (as in the implementation and the statement's wording)"}});
 
 }  // namespace
